@@ -33,6 +33,9 @@ pub struct Stats {
     pub max_n: usize,
     pub step_caps: u64,
     pub stale_wakes: u64,
+    /// max over runs of (polls after the last external event) / (64 (n+8)) in per mille
+    pub cap_use_permille: u64,
+    pub max_steps_permille: u64,
 }
 
 fn graph_hash(c: &CaseSpec) -> u64 {
@@ -83,6 +86,8 @@ impl Stats {
             max_n: 0,
             step_caps: 0,
             stale_wakes: 0,
+            cap_use_permille: 0,
+            max_steps_permille: 0,
         }
     }
 
@@ -112,6 +117,11 @@ impl Stats {
             self.seams += d.seams;
             self.mids += d.mids;
             self.stale_wakes += d.wakes_stale;
+            let caps = crate::exec::Caps::for_n(d.n);
+            self.cap_use_permille = self
+                .cap_use_permille
+                .max((d.max_polls_after_external as u64 * 1000) / caps.polls_after_external as u64);
+            self.max_steps_permille = self.max_steps_permille.max((d.steps as u64 * 1000) / caps.steps as u64);
             self.virtual_time += d.makespan.iter().sum::<u64>();
             if d.vt_ok.iter().any(|&x| x) {
                 self.add("probe.runs_under_virtual_time_discipline", 1);
@@ -289,6 +299,12 @@ impl Stats {
                     }
                 }
                 Prop::C07 => {
+                    if n <= 5 && n >= 1 {
+                        let subset: u64 = rs.gates.iter().enumerate().map(|(i, g)| (g.fail as u64) << i).sum();
+                        if subset != 0 {
+                            self.bump("probe.small_graph_failing_subset_case");
+                        }
+                    }
                     if !t.failed.is_empty() {
                         nontrivial = true;
                         if t.failed.len() >= 2 {
@@ -442,6 +458,8 @@ impl Stats {
         self.max_n = self.max_n.max(o.max_n);
         self.step_caps += o.step_caps;
         self.stale_wakes += o.stale_wakes;
+        self.cap_use_permille = self.cap_use_permille.max(o.cap_use_permille);
+        self.max_steps_permille = self.max_steps_permille.max(o.max_steps_permille);
     }
 
     /// Probes whose expected count at a quick budget is in the thousands; zero
@@ -505,6 +523,8 @@ impl Stats {
             "simulated_time_units": self.virtual_time,
             "max_functions": self.max_n,
             "step_caps": self.step_caps,
+            "liveness_cap_max_use_permille": self.cap_use_permille,
+            "step_cap_max_use_permille": self.max_steps_permille,
             "counters": self.counters,
             "samples": samples,
             "violation": violation,
